@@ -9,9 +9,12 @@ THEOREMS = ['MM.Search.' + n for n in ('C03_sound', 'C03_complete', 'C03_nodup',
 TRUSTED_BASE = SEARCH_TRUST + ['feasibility is over the admitted geos (documented behaviour of geos_within_constraints / n_geos_max); scores containing NaN are outside the claim']
 
 
-def run(out, tier, model_ok=True):
+SUPPORTS_DEEPEN = True
+
+
+def run(out, tier, model_ok=True, deepen=False):
   out.rule = 'oracle: brute-force enumeration of every legal (T, C) over the admitted geos with scores from independently built diagnostics; the result must be distinct, best-first, and no feasible non-omittable design outside it may score strictly higher (all of them returned when fewer than k); non-trivial = more than one feasible design'
-  run_search_prop(out, PROP, se.judge_c03, tier, model_ok)
+  run_search_prop(out, PROP, se.judge_c03, tier, model_ok, deepen=deepen)
 
 
 def replay(out, path, model_ok=True):
